@@ -59,8 +59,8 @@ def plan(tier, ctx):
 
     # ---- first arrival (tmp_in_size == 0: invariant, see assumptions)
     if quick:
-        rils = [0, 1, 7, 8, 9, 16, 31, 32, 56, 63, 64]
-        avs = [0, 3, 4, 7, 8]
+        rils = [0, 7, 8, 9, 31, 32, 63, 64]
+        avs = [0, 4, 8]
     else:
         rils = list(range(0, 65))
         avs = list(range(0, 11))
@@ -68,41 +68,43 @@ def plan(tier, ctx):
         for ril in rils:
             for av in avs:
                 add("trl_done", mode, ril, 0, av,
-                    core=((ril, av) in ((0, 8), (0, 4), (9, 3), (64, 0), (32, 0), (16, 7))))
+                    core=((ril, av) in ((0, 8), (0, 4), (9, 4), (64, 0), (32, 0))))
     for mode in (GZ_NV, Z_NV):
         t = tlen(mode)
-        for ril in ([0, 8, 8 * t - 1, 8 * t, 64] if quick else [0, 3, 8, 9, 8 * t - 8, 8 * t - 1, 8 * t, 8 * t + 1, 63, 64]):
-            for av in ([0, t - 1, t] if quick else [0, 1, t - 1, t, t + 1, 10]):
+        for ril in ([0, 8 * t - 1, 64] if quick else [0, 3, 8, 9, 8 * t - 8, 8 * t - 1, 8 * t, 8 * t + 1, 63, 64]):
+            if ril > 64:
+                continue  # read_in_length is at most 64
+            for av in ([0, t] if quick else [0, 1, t - 1, t, t + 1, 10]):
                 add("trl_done", mode, ril, 0, av)
 
     # ---- re-entry: fewer than 8 bits in the bit buffer, 0..T-1 bytes saved
-    for mode in (GZ, Z, GZ_NV, Z_NV):
+    for mode in ((GZ, Z) if quick else (GZ, Z, GZ_NV, Z_NV)):
         t = tlen(mode)
         full = mode in (GZ, Z)
-        for ril in ([0, 5] if quick or not full else [0, 3, 7]):
+        for ril in ([5] if quick else ([0, 5] if not full else [0, 3, 7])):
             for tmp in ([0, 1, t - 1] if quick or not full else range(0, t)):
                 if quick or not full:
                     cand = [0, 1, t - tmp - 1, t - tmp, t - tmp + 1]
                 else:
                     cand = range(0, 11)
                 for av in sorted({a for a in cand if 0 <= a <= 10}):
-                    add("trl_check", mode, ril, tmp, av, entry_check=True, core=(full and ril == 0 and tmp == 1 and av == t - 1))
+                    add("trl_check", mode, ril, tmp, av, entry_check=True, core=(full and ril in (0, 5) and tmp == 1 and av == t - 1))
 
     # ---- two calls end-to-end
     for mode in (GZ, Z):
         t = tlen(mode)
-        for ril in ([0, 5, 8, 21] if quick else [0, 5, 8, 13, 21, 24, 8 * t - 8, 8 * t - 1]):
+        for ril in ([5, 8] if quick else [0, 5, 8, 13, 21, 24, 8 * t - 8, 8 * t - 1]):
             for av in ([0, 2] if quick else [0, 1, 2, 3, 5]):
                 have = ril // 8 + av
                 if have >= t:
                     continue
-                for s2 in sorted({0, t - have - 1, t - have, t - have + 2} if quick else set(range(0, t - have + 2))):
+                for s2 in sorted({t - have - 1, t - have, t - have + 2} if quick else set(range(0, t - have + 2))):
                     if s2 < 0:
                         continue
                     add("trl_two", mode, ril, 0, av, split2=s2, core=(ril == 5 and av == 2 and s2 == t - have))
     # ---- modes without verification
     for mode in (0, 2, 4):
-        for ril in (0, 13, 64):
+        for ril in ((13,) if quick else (0, 13, 64)):
             for av in (0, 5):
                 add("trl_noverify", mode, ril, 0, av, core=(ril == 13 and av == 5))
 
@@ -110,12 +112,14 @@ def plan(tier, ctx):
     for mode in (0, 1, 2, 3, 4):
         t = 8 if mode in (1, 2) else (4 if mode in (3, 4) else 0)
         for eob in (0, 1):
-            for bc in ([0, 7, 8] if quick else list(range(0, 17)) + [31, 32, 47, 53]):
+            if quick and mode in (0, 2, 4) and not eob:
+                continue
+            for bc in (([0, 7] if mode in (1, 3) else [7]) if quick else list(range(0, 17)) + [31, 32, 47, 53]):
                 if not eob and bc > 54:
                     continue
                 kb = (bc + (0 if eob else 10) + 7) // 8
                 if quick:
-                    aos = {0, 8, 9, kb + t + 7, kb + t + 8}
+                    aos = {8, kb + t + 7, kb + t + 8}
                 else:
                     aos = set(range(0, kb + t + 10)) | {32}
                 for ao in sorted(aos):
@@ -135,12 +139,12 @@ def plan(tier, ctx):
                            "write_trailer", "bitbuf2.h set_buf/write_bits/flush_bits/flush/is_full", "unaligned.h stores/loads"],
         bounds={
             "verifier": "read_in (64 bits), saved bytes, input bytes, crc, total_out symbolic; sizes concrete: first arrival "
-                        "read_in_length 0..64 x avail_in 0..10 with tmp_in_size 0 [quick: 11 x 5]; re-entry read_in_length "
+                        "read_in_length 0..64 x avail_in 0..10 with tmp_in_size 0 [quick: 8 x 3]; re-entry read_in_length "
                         "{0,3,7} x tmp_in_size 0..T-1 x avail_in 0..10 [quick: boundary subset]; crc_flag GZIP, ZLIB in full, "
                         "*_NO_HDR_VER on boundary sizes, DEFLATE/GZIP_NO_HDR/ZLIB_NO_HDR: no verification, 6 sizes each",
             "two_call": "first call short by 1..T bytes, second call delivers 0..missing+1 bytes",
-            "write_trailer": "m_bit_count 0..16,31,32,47,53 [quick 0,7,8], has_eob_hdr 0/1, gzip_flag 0..4, avail_out 0..needed+9 "
-                             "[quick 5 values]; m_bits, crc, total_in, previous output symbolic",
+            "write_trailer": "m_bit_count 0..16,31,32,47,53 [quick 0,7], has_eob_hdr 0/1, gzip_flag 0..4, avail_out 0..needed+9 "
+                             "[quick 3 values]; m_bits, crc, total_in, previous output symbolic",
         },
         stubs=["strnlen/memcpy models of harness/C19/link_stubs.c (memcpy: typed copy for n in {2,4,8}, byte loop otherwise)",
                "assert-false link stubs for the compression kernels and decode_huffman_code_block_stateless (unreachable here)",
